@@ -340,6 +340,15 @@ def handle (toks : List String) : Option String :=
     let triples := (List.range (c.size / 3)).map (fun i => (c[3 * i]!, c[3 * i + 1]!, c[3 * i + 2]!))
     let out := Spectral.synth fs[0]! bw[0]! next triples ((List.range n).map (fun (j : Nat) => j.toFloat))
     some (",".intercalate (out.map (fun v => toString v.toBits.toNat)))
+  | ["synthfull", fs, time, bw, comps] => do
+    -- the whole function after validation: raw freqBandwidth (`none` or float bits) and raw normal draws; comps: freq,psd,randn triples
+    let a ← parseFloats [fs, time]
+    let req ← if bw == "none" then some none else (do let b ← parseFloats [bw]; some (some b[0]!))
+    let c ← parseFloats ((comps.splitOn ",").filter (· ≠ ""))
+    let idx := List.range (c.size / 3)
+    let out := Spectral.synthFull Spectral.pyRound a[0]! a[1]! req (idx.map (fun i => c[3 * i]!)) (idx.map (fun i => c[3 * i + 1]!))
+      (idx.map (fun i => c[3 * i + 2]!))
+    some (",".intercalate (out.map (fun v => toString v.toBits.toNat)))
   | "c09lin" :: args => do
     let a ← parseFloats args
     if a.size = 5 then some s!"{(C09.linearResidual a[0]! a[1]! a[2]! a[3]! a[4]!).toBits.toNat}" else none
